@@ -335,3 +335,181 @@ Qed.
 
 Lemma cands_in l e : In e (cands l) -> In e l /\ is_cand e = true.
 Proof. unfold cands. intros H. apply filter_In in H. exact H. Qed.
+
+(* ================= Part 3: Install against its declarative reading ================= *)
+
+Definition is_version_err (e : ierr) : bool :=
+  match e with EDowngrade | EEqual | EVersion => true | _ => false end.
+
+Lemma version_err_ok_other tbl T src ow e : is_version_err e = false -> version_err_ok tbl T src ow e = true.
+Proof. destruct e; cbn; intros H; try discriminate; reflexivity. Qed.
+
+Lemma chmod_exec_names n l : map f_name (chmod_exec n l) = map f_name l.
+Proof.
+  unfold chmod_exec. rewrite map_map. apply map_ext. intros f.
+  destruct (String.eqb (f_name f) n); reflexivity.
+Qed.
+
+(* what locate finds is the executable the declarative reading names, and the copy
+   list is the declarative list of top-level files *)
+Lemma locate_ok src exe n copy : source_ok src = true -> locate src = LOk exe n copy ->
+  spec_exe src = Some exe /\ pname_of (f_name exe) = Some n /\ copy = spec_files src /\
+  is_exec exe = true /\ find_file (bin_name n) copy = Some exe.
+Proof.
+  intros Hwf Hl. destruct src as [| |sn|f|base es]; cbn [locate] in Hl; try discriminate.
+  - destruct (pname_of sn); discriminate.
+  - destruct (pname_of (f_name f)) as [m|] eqn:Hn; [|discriminate].
+    destruct (is_exec f) eqn:Hx; [|discriminate]. injection Hl as <- <- <-.
+    cbn [spec_exe spec_files]. rewrite Hx. repeat split; try assumption.
+    cbn [find_file]. rewrite <- (pname_of_bin _ _ Hn), str_eqb_refl. reflexivity.
+  - rewrite parse_dir_spec in Hl. unfold parse_spec in Hl.
+    cbn [source_ok] in Hwf. apply andb_true_iff in Hwf. destruct Hwf as [Hwf _].
+    apply andb_true_iff in Hwf. destruct Hwf as [Hnd _].
+    cbn [spec_exe spec_files]. fold (cands (top_files es)). fold (execs (top_files es)).
+    destruct (execs (top_files es)) as [|e1 [|e2 r]] eqn:He; [| |discriminate].
+    + destruct (cands (top_files es)) as [|x [|y r]] eqn:Hc; try discriminate.
+      destruct (pname_of (f_name x)) as [m|] eqn:Hn; [|discriminate].
+      injection Hl as <- <- <-. rewrite f_name_set_exec.
+      repeat split; try assumption; try reflexivity; [apply is_exec_set_exec|].
+      unfold chmod_exec. rewrite find_file_map.
+      2:{ intros f. destruct (String.eqb (f_name f) (f_name x)); reflexivity. }
+      rewrite <- (pname_of_bin _ _ Hn).
+      assert (Hin : In x (top_files es)).
+      { apply (cands_in _ x). rewrite Hc. left. reflexivity. }
+      rewrite (find_file_nodup _ Hnd x Hin). rewrite str_eqb_refl. reflexivity.
+    + destruct (pname_of (f_name e1)) as [m|] eqn:Hn; [|discriminate].
+      injection Hl as <- <- <-.
+      destruct (execs_in (top_files es) e1) as [Hin [_ Hx]]; [rewrite He; left; reflexivity|].
+      repeat split; try assumption; try reflexivity.
+      rewrite <- (pname_of_bin _ _ Hn). apply find_file_nodup; assumption.
+Qed.
+
+Lemma locate_err src e : locate src = LErr e ->
+  is_version_err e = false /\ forall tbl, candidate tbl src = None.
+Proof.
+  intros Hl. destruct src as [| |sn|f|base es]; cbn [locate] in Hl.
+  - injection Hl as <-. split; [reflexivity|]. reflexivity.
+  - injection Hl as <-. split; [reflexivity|]. reflexivity.
+  - split; [destruct (pname_of sn); injection Hl as <-; reflexivity|]. reflexivity.
+  - destruct (pname_of (f_name f)) as [m|] eqn:Hn.
+    + destruct (is_exec f) eqn:Hx; [discriminate|]. injection Hl as <-. split; [reflexivity|].
+      intros tbl. unfold candidate. cbn [spec_exe]. rewrite Hx. reflexivity.
+    + injection Hl as <-. split; [reflexivity|].
+      intros tbl. unfold candidate. cbn [spec_exe]. destruct (is_exec f); [rewrite Hn|]; reflexivity.
+  - rewrite parse_dir_spec in Hl. unfold parse_spec in Hl.
+    unfold candidate. cbn [spec_exe]. fold (cands (top_files es)). fold (execs (top_files es)).
+    destruct (execs (top_files es)) as [|e1 [|e2 r]] eqn:He.
+    + destruct (cands (top_files es)) as [|x [|y r]] eqn:Hc.
+      * injection Hl as <-. split; reflexivity.
+      * destruct (pname_of (f_name x)) as [m|] eqn:Hn; [discriminate|]. injection Hl as <-.
+        split; [reflexivity|]. intros tbl. cbv iota. rewrite ?f_name_set_exec, ?Hn. reflexivity.
+      * injection Hl as <-. split; reflexivity.
+    + destruct (pname_of (f_name e1)) as [m|] eqn:Hn; [discriminate|]. injection Hl as <-.
+      split; [reflexivity|]. intros tbl. reflexivity.
+    + injection Hl as <-. split; reflexivity.
+Qed.
+
+(* the declarative result of an installation *)
+Definition installed_state (st : state) (n : string) (src : source) : state :=
+  ainsert n (map mask (spec_files src)) (aremove n st).
+
+Definition refused (st st' : state) (r : ires) : Prop :=
+  st' = st /\ r_new r = None /\ r_existing r = None.
+
+Section Install.
+  (* the link between ComparePluginVersion and the declarative precedence: proved in
+     C20_SemverProofs (compare_plugin_version_spec) and discharged at the end *)
+  Hypothesis cpv_spec : forall v w,
+    compare_plugin_version v w = if sv_valid v && sv_valid w then Some (prec_of v w) else None.
+
+  Lemma do_install_ok st n copy ex nw : valid_name n = true -> copy <> [] ->
+    do_install st n copy ex nw = (ainsert n (map mask copy) (aremove n st), mk_ires ex (Some nw) None).
+  Proof.
+    intros Hv Hc. unfold do_install. rewrite Hv. cbn [negb].
+    destruct copy; [contradiction|reflexivity].
+  Qed.
+
+  Lemma install_spec tbl st src ow : source_ok src = true ->
+    match verdict tbl st src ow with
+    | Some (n, v, ex) =>
+        install tbl st src ow = (installed_state st n src, mk_ires ex (Some (n, v)) None)
+    | None =>
+        exists e, install tbl st src ow = (st, mk_ires None None (Some e))
+                  /\ version_err_ok tbl st src ow e = true
+    end.
+  Proof.
+    intros Hwf. unfold install. destruct (locate src) as [e|exe n copy] eqn:Hl.
+    - destruct (locate_err src e Hl) as [Hve Hc]. unfold verdict. rewrite Hc.
+      exists e. split; [reflexivity|]. apply version_err_ok_other. exact Hve.
+    - destruct (locate_ok src exe n copy Hwf Hl) as [Hse [Hpn [Hcopy [Hx Hff]]]].
+      assert (Hne : copy <> []) by (intros ->; discriminate).
+      cbn [install_with].
+      assert (Hcand : candidate tbl src =
+                if negb (valid_name n) then None
+                else match tbl_get (f_cid exe) tbl with
+                     | MOk mn v => if String.eqb mn n then Some (n, v) else None
+                     | _ => None
+                     end).
+      { unfold candidate. rewrite Hse, Hpn. reflexivity. }
+      assert (Hask : ask tbl n exe =
+                match tbl_get (f_cid exe) tbl with
+                | MOk mn v => if String.eqb mn n then AOk mn v else AMisnamed
+                | MMalformed => AInvalid
+                | MFail => AFail
+                end).
+      { unfold ask. rewrite Hx. reflexivity. }
+      rewrite Hask. clear Hask.
+      destruct (tbl_get (f_cid exe) tbl) as [mn v| |] eqn:Ht.
+      2:{ unfold verdict. rewrite Hcand. destruct (negb (valid_name n));
+          (exists EMetaInvalid; split; [reflexivity|reflexivity]). }
+      2:{ unfold verdict. rewrite Hcand. destruct (negb (valid_name n));
+          (exists EMetaInvalid; split; [reflexivity|reflexivity]). }
+      destruct (String.eqb mn n) eqn:Hmn.
+      2:{ unfold verdict. rewrite Hcand. destruct (negb (valid_name n));
+          (exists EMisnamed; split; [reflexivity|reflexivity]). }
+      apply str_eqb_eq in Hmn. subst mn.
+      unfold get_plugin, dir_get.
+      destruct (valid_name n) eqn:Hvn; cbn [negb] in *.
+      2:{ unfold verdict. rewrite Hcand.
+          destruct ow.
+          - exists ECleanup. unfold do_install. rewrite Hvn. split; reflexivity.
+          - exists EExistCheck. split; reflexivity. }
+      assert (Hex : existing tbl st n =
+                match afind n st with
+                | None => None
+                | Some d => match find_file (bin_name n) d with None => None | Some f => Some (ask tbl n f) end
+                end) by reflexivity.
+      unfold verdict. rewrite Hcand, Hex. subst copy.
+      destruct (afind n st) as [d|] eqn:Hfd.
+      2:{ rewrite (do_install_ok st n _ None (n, v) Hvn Hne). reflexivity. }
+      destruct (find_file (bin_name n) d) as [f|] eqn:Hfb.
+      2:{ rewrite (do_install_ok st n _ None (n, v) Hvn Hne). reflexivity. }
+      destruct (ask tbl n f) as [en ev| | | |] eqn:Ha.
+      + destruct ow; cbn [orb].
+        * rewrite (do_install_ok st n _ _ (n, v) Hvn Hne). reflexivity.
+        * rewrite cpv_spec. unfold sv_higher.
+          assert (Hsit : forall e, version_err_ok tbl st src false e =
+                                  match e with
+                                  | EDowngrade => sv_valid v && sv_valid ev && cmp_eqb (prec_of v ev) Lt
+                                  | EEqual => sv_valid v && sv_valid ev && cmp_eqb (prec_of v ev) Eq
+                                  | EVersion => negb (sv_valid v && sv_valid ev)
+                                  | _ => true
+                                  end).
+          { intros e. unfold version_err_ok. rewrite Hcand, Hex. cbn [negb andb].
+            destruct e; reflexivity. }
+          destruct (sv_valid v && sv_valid ev) eqn:Hval; cbn [andb].
+          -- destruct (prec_of v ev) eqn:Hp.
+             ++ exists EEqual. split; [reflexivity|]. rewrite Hsit, ?Hval, ?Hp. reflexivity.
+             ++ exists EDowngrade. split; [reflexivity|]. rewrite Hsit, ?Hval, ?Hp. reflexivity.
+             ++ rewrite (do_install_ok st n _ _ (n, v) Hvn Hne). reflexivity.
+          -- exists EVersion. split; [reflexivity|]. rewrite Hsit, ?Hval. reflexivity.
+      + destruct ow; [rewrite (do_install_ok st n _ None (n, v) Hvn Hne); reflexivity|].
+        exists EExistMeta. split; reflexivity.
+      + destruct ow; [rewrite (do_install_ok st n _ None (n, v) Hvn Hne); reflexivity|].
+        exists EExistMeta. split; reflexivity.
+      + destruct ow; [rewrite (do_install_ok st n _ None (n, v) Hvn Hne); reflexivity|].
+        exists EExistMeta. split; reflexivity.
+      + destruct ow; [rewrite (do_install_ok st n _ None (n, v) Hvn Hne); reflexivity|].
+        exists EExistMeta. split; reflexivity.
+  Qed.
+End Install.
